@@ -60,3 +60,21 @@ def write_kw():
             f"Definition TRANSPORT_UNSAFE : list string := {coq.slist(transport_unsafe())}.\n"
             f"Definition INVALID_MODULE_EXTRA : list string := {coq.slist(invalid_module_extra())}.\n")
     coq.write_gen("Kw", text)
+
+
+def template_list(tree="gapic/templates"):
+    base = os.path.join(env.REPO, tree)
+    out = []
+    for root, _, files in os.walk(base):
+        for f in files:
+            out.append(os.path.relpath(os.path.join(root, f), base))
+    if not out:
+        raise ValueError(f"no templates under {tree}")
+    return sorted(out)
+
+
+def write_templates():
+    text = ("(* Gen/Templates.v — REGENERATED template path lists (T0). Do not edit. *)\nFrom GV Require Import Base.Str.\n"
+            f"Definition DEFAULT_TEMPLATES : list string := {coq.slist(template_list('gapic/templates'))}.\n"
+            f"Definition ADS_TEMPLATES : list string := {coq.slist(template_list('gapic/ads-templates'))}.\n")
+    coq.write_gen("Templates", text)
